@@ -53,7 +53,19 @@ CLAIM = {
             'run, never proved. Partial: one_tap_exact needs memory < fft (forced: np.fft.fft(taps, fft) crops; '
             'negative witness proved and replayed) and H[k] != 0 on used carriers (division). The impulse response '
             'is taken as reported by the channel; how TdlChannel draws and discretises it belongs to C03. '
-            'binary64 rounding is outside every theorem.',
+            'binary64 rounding is outside every theorem. Robustness classes: R4 (a raising call leaves the pair '
+            'unchanged: pair_rejected_unchanged, params_step_spec), R5 deep notches / R6 scale (one_tap_exact needs '
+            'only H != 0, freq_response_scales, one_tap_exact_scaled; every comparison of the harness is relative to '
+            'the input magnitude and to the conditioning max|H|/min|H_used|) and R7 (pair_equals_fresh, '
+            'pair_one_tap_after_history) are covered by THEOREM plus correspondence and oracles; R1 (narrow numpy '
+            'integer parameters, integer / float16 / float32 / complex64 arrays, float parameters rejected), R2 '
+            '(strided, reversed, offset, Fortran-column, broadcast, read-only views, 0-d, size-0, 2-D/3-D rejected or '
+            'flattened) and R3 (arguments snapshotted and compared after the call and after later calls, outputs never '
+            'alias inputs, each other or internal buffers) are covered by CORRESPONDENCE and ORACLES only: the model '
+            'is a pure function of the logical values by construction, which is what the code is compared against. '
+            'Python lists are not accepted by the API (ndarray only). Each class has its own required branches '
+            '(R*:corr, R*:oracle*) and failure classes computed from the input (R1:param-<type>, R1:array-<dtype>:*, '
+            'R2:<layout>:*, R3:input-mutated:<call>:<what>, R4:*, ...,notch<=1e-3 / ,input-scale<1e-6 qualifiers).',
 }
 
 TOL = 1e-9
@@ -146,6 +158,32 @@ def guard_bins(fft, used):
 
 
 # ------------------------------------------------------------------ oracles on the real code
+def sig_scale(x):
+    """magnitude every comparison is relative to (R6): the largest |sample| of the data; 1 for all-zero data"""
+    x = np.asarray(x)
+    m = float(np.max(np.abs(x))) if x.size else 0.0
+    return m if m > 0 else 1.0
+
+
+def scale_class(x):
+    """class qualifier computed from the input magnitude"""
+    x = np.asarray(x)
+    m = float(np.max(np.abs(x))) if x.size else 0.0
+    if m == 0.0:
+        return ',all-zero-input' if x.size else ''
+    if m < 1e-6:
+        return ',input-scale<1e-6'
+    if m > 1e6:
+        return ',input-scale>1e6'
+    return ''
+
+
+def used_bins(fft, used):
+    """bins carrying data, from first principles: all of them, or signed subcarrier numbers +-1..+-used/2"""
+    silent = set(guard_bins(fft, used)) if used < fft else set()
+    return [b for b in range(fft) if b not in silent]
+
+
 def cfg_class(case):
     fft, cp, used = case['fft'], case['cp'], case['used']
     c = 'used<fft' if used < fft else 'used==fft'
@@ -230,14 +268,22 @@ def o_onetap_history(case):
     eqz = o.OfdmOneTapEqualizer(obj)
     built = (f, c, u)
     cur = built
+    eqz2 = None
     for k, st in enumerate(case['steps']):
         f, c, u = st['set']
         uu = f if u is None else u
-        try:
-            obj.set_parameters(f, c, u)
+        if k == case.get('second_eq_at', -1):
+            eqz2 = o.OfdmOneTapEqualizer(obj)            # a second user of the SAME OFDM object
+        if st.get('direct') and valid(f, c, uu):
+            # public attributes assigned directly, bypassing set_parameters
+            obj.fft_size, obj.cp_size, obj.num_used_subcarriers = f, c, uu
             raised = False
-        except ValueError:
-            raised = True
+        else:
+            try:
+                obj.set_parameters(f, c, u)
+                raised = False
+            except ValueError:
+                raised = True
         if valid(f, c, uu):
             if raised:
                 return 'history-rejects-valid', 'step %d %r' % (k, (f, c, u))
@@ -270,7 +316,14 @@ def o_onetap_history(case):
         out2 = fresh_eq.equalize_data(np.array(dem2, copy=True), ir)
         if tx.shape != tx2.shape or not np.array_equal(tx, tx2) or dem.shape != dem2.shape or not np.array_equal(dem, dem2):
             return 'stale-ofdm:' + rel, 'step %d: modulate/demodulate of the re-configured object differ from a fresh OFDM%r' % (k, cur)
-        same = out.shape == out2.shape and np.allclose(out, out2, rtol=1e-12, atol=1e-12, equal_nan=True)
+        again = eqz.equalize_data(np.array(dem, copy=True), ir)      # repeated call: same answer
+        if again.shape != out.shape or not np.array_equal(again, out, equal_nan=True):
+            return 'repeated-call-differs:' + rel, 'step %d' % k
+        if eqz2 is not None:
+            outb = eqz2.equalize_data(np.array(dem, copy=True), ir)
+            if outb.shape != out2.shape or not np.allclose(outb, out2, rtol=1e-12, atol=0, equal_nan=True):
+                return 'stale-equaliser:second-user,' + rel, 'step %d: the second equaliser sharing the OFDM object differs from a fresh one' % k
+        same = out.shape == out2.shape and np.allclose(out, out2, rtol=1e-12, atol=0, equal_nan=True)
         if not same:
             return 'stale-equaliser:' + rel, ('step %d: the long-lived equaliser differs from a fresh one on OFDM%r '
                                                '(built on OFDM%r)' % (k, cur, built))
@@ -282,7 +335,7 @@ def o_onetap_history(case):
             if float(np.min(np.abs(Hs))) < 0.05:
                 continue
         want = np.concatenate([x, np.zeros(expected_padding(x.size, cur[2]))])
-        scale = max(1.0, float(np.max(np.abs(x))) if x.size else 1.0)
+        scale = sig_scale(x)
         if out.shape != want.shape or (want.size and not float(np.max(np.abs(out - want))) <= 2e-6 * scale):
             return 'one-tap-inexact-after-history:' + rel, 'step %d configuration %r' % (k, cur)
     return None
@@ -299,10 +352,10 @@ def o_roundtrip(case):
     want = np.concatenate([x, np.zeros(expected_padding(x.size, used))])
     if back.shape != want.shape:
         return 'roundtrip-length:' + cfg_class(case), 'got %d symbols, expected %d' % (back.size, want.size)
-    scale = max(1.0, float(np.max(np.abs(x))) if x.size else 1.0)
+    scale = sig_scale(x)
     err = float(np.max(np.abs(back - want))) if want.size else 0.0
     if not err <= TOL * scale:
-        return 'roundtrip:' + cfg_class(case), 'max error %.3g' % err
+        return 'roundtrip:' + cfg_class(case) + scale_class(x), 'max error %.3g (input scale %.3g)' % (err, scale)
     return None
 
 
@@ -339,11 +392,11 @@ def o_guards(case):
     for r in range(nsym):
         body = tx[r * (fft + cp) + cp:(r + 1) * (fft + cp)]
         spec = F @ body
-        ref = max(1.0, float(np.max(np.abs(spec))))
+        ref = float(np.max(np.abs(spec)))                   # relative to the symbol's own spectrum (R6)
         leak = float(np.max(np.abs(spec[silent]))) if silent else 0.0
         if not leak <= 1e-9 * ref:
             b = silent[int(np.argmax(np.abs(spec[silent])))]
-            return ('dc-energy' if b == 0 else 'guard-energy') + ':' + cfg_class(case), \
+            return ('dc-energy' if b == 0 else 'guard-energy') + ':' + cfg_class(case) + scale_class(x), \
                 'symbol %d bin %d carries %.3g' % (r, b, leak)
         # all the energy sits on the `used` remaining bins
         if len(silent) != fft - used:
@@ -394,15 +447,21 @@ def o_onetap(case):
     dense = np.zeros(memory + 1, dtype=complex)
     dense[np.asarray(ir.tap_indexes_sparse, dtype=int)] = np.asarray(ir.tap_values_sparse)[:, 0] if tx.size else 0
     ref = direct_convolution(dense, tx)
-    if rx.shape != ref.shape or (ref.size and float(np.max(np.abs(rx - ref))) > 1e-9 * max(1.0, float(np.max(np.abs(ref))))):
+    if rx.shape != ref.shape or (ref.size and float(np.max(np.abs(rx - ref))) > 1e-9 * float(np.max(np.abs(ref)))):
         return 'channel-not-convolution:' + cls, 'corrupt_data differs from direct convolution with the reported taps'
-    # well conditioned channels only: exact recovery needs H[k] != 0 on the used carriers
+    # exact recovery needs H[k] != 0 on the USED carriers; the comparison is relative to the input scale and to the
+    # conditioning max|H| / min|H_used| of the division (R5 deep notches, R6 scaled channels)
     Hs = np.array([sum(dense[d] * np.exp(-2j * np.pi * ((d * k) % fft) / fft) for d in range(memory + 1))
                    for k in range(fft)])
-    if x.size and float(np.min(np.abs(Hs))) < case.get('min_gain', 0.05):
-        return None
-    if not x.size:
-        Hs = np.ones(fft)
+    ub = used_bins(fft, used)
+    hmax = float(np.max(np.abs(Hs))) if x.size else 1.0
+    hmin = float(np.min(np.abs(Hs[ub]))) if x.size else 1.0
+    if x.size and not hmin > 1e-13 * hmax:
+        return None                                   # a (numerically) exact null on a used carrier
+    cond = hmax / hmin
+    qual = ''
+    if cls != 'memory==fft':                          # the known-finding class keeps its exact name
+        qual = (',notch<=1e-3' if cond >= 1e3 else '') + scale_class(x) + scale_class(dense)
     try:
         dem = obj.demodulate(np.array(rx[:tx.size], copy=True))
         eq = o.OfdmOneTapEqualizer(obj).equalize_data(dem, ir)
@@ -411,14 +470,327 @@ def o_onetap(case):
     want = np.concatenate([x, np.zeros(expected_padding(x.size, used))])
     if eq.shape != want.shape:
         return 'one-tap-length:' + cls, 'got %s expected %s' % (eq.shape, want.shape)
-    scale = max(1.0, float(np.max(np.abs(x))) if x.size else 1.0)
+    scale = sig_scale(x)
     err = float(np.max(np.abs(eq - want))) if want.size else 0.0
-    if not err <= 1e-7 * scale / min(1.0, float(np.min(np.abs(Hs)))):
-        return 'one-tap-inexact:' + cls, 'max error %.3g (memory %d, cp %d, fft %d)' % (err, memory, cp, fft)
+    if not err <= scale * (1e-9 + 1e-12 * cond):
+        return 'one-tap-inexact:' + cls + qual, ('max error %.3g at input scale %.3g, conditioning %.3g (memory %d, cp %d, '
+                                                  'fft %d)' % (err, scale, cond, memory, cp, fft))
     return None
 
 
-ORACLES = {'onetap_history': o_onetap_history, 'history': o_history, 'constructor': o_constructor, 'roundtrip': o_roundtrip, 'structure': o_structure,
+# ------------------------------------------------------------------ robustness classes R1-R4 (oracles)
+INT_TYPES = ['int8', 'uint8', 'int16', 'uint16', 'int32', 'int64']
+ARRAY_TYPES = ['int16', 'int32', 'int64', 'uint8', 'float32', 'float16', 'complex64']
+
+
+def _pipeline(obj, eqz, x, profile):
+    """modulate - static channel - demodulate - equalise; returns every intermediate"""
+    ch = make_static_channel(*profile)
+    tx = obj.modulate(x)
+    rx = ch.corrupt_data(np.array(tx, copy=True))
+    ir = ch.get_last_impulse_response()
+    dem = obj.demodulate(np.array(rx[:tx.size], copy=True))
+    out = eqz.equalize_data(dem, ir)
+    return tx, rx, ir, dem, out
+
+
+def o_types(case):
+    """R1: the same VALUES passed as narrow numpy integer scalars (parameters) or as integer / single precision
+    arrays (signals) give the result of the Python-int / complex128 twin; results are complex, never truncated"""
+    o = _ofdm()
+    fft, cp, used = case['fft'], case['cp'], case['used']
+    ref = o.OFDM(fft, cp, used)
+    ref_eq = o.OfdmOneTapEqualizer(ref)
+    vals = np.array([complex(a, b) for a, b in case['x']])
+    profile = (case['delays'], case['powers_dB'], cx(case['draw']))
+    kind = case['kind']
+    if kind == 'param':
+        ty = getattr(np, case['type'])
+        label = 'R1:param-' + case['type']
+        try:
+            obj = o.OFDM(ty(fft), ty(cp), ty(used))
+        except Exception as e:
+            return label + ':constructor-raises', '%s: %s' % (type(e).__name__, str(e)[:120])
+        try:
+            got = _pipeline(obj, o.OfdmOneTapEqualizer(obj), vals.copy(), profile)
+        except Exception as e:
+            return label + ':raises', '%s: %s' % (type(e).__name__, str(e)[:120])
+        want = _pipeline(ref, ref_eq, vals.copy(), profile)
+        for name, a, b in (('modulate', got[0], want[0]), ('demodulate', got[3], want[3]), ('equalize_data', got[4], want[4])):
+            if a.shape != b.shape or not np.array_equal(a, b):
+                return label + ':' + name, 'differs from the Python-int twin'
+        if not isinstance(obj.fft_size + obj.cp_size + obj.num_used_subcarriers, (int, np.integer)):
+            return label + ':attributes', 'non-integer attributes'
+        return None
+    if kind == 'param-float':
+        # a float where an integer is required: either rejected by the guard, or the object works like the int twin
+        try:
+            obj = o.OFDM(float(fft), float(cp), float(used))
+        except (TypeError, ValueError):
+            return None
+        try:
+            tx = obj.modulate(vals.copy())
+            if np.array_equal(tx, ref.modulate(vals.copy())):
+                return None
+            return 'R1:param-float:wrong-result', 'differs from the int twin'
+        except Exception as e:
+            return 'R1:param-float:accepted-but-unusable', 'constructor accepted floats, modulate: %s' % type(e).__name__
+    # array element types
+    dt = np.dtype(case['type'])
+    label = 'R1:array-' + case['type']
+    if dt.kind in 'iu':
+        typed = vals.real.astype(dt)                       # integer-valued real symbols
+        twin = typed.astype(complex)
+    elif dt.kind == 'f':
+        typed = vals.real.astype(dt)
+        twin = typed.astype(complex)
+    else:
+        typed = vals.astype(dt)
+        twin = typed.astype(complex)
+    eps = 0.0 if dt.kind in 'iu' else float(np.finfo(dt).eps)
+    try:
+        tx = ref.modulate(typed)
+    except Exception as e:
+        return label + ':modulate-raises', '%s: %s' % (type(e).__name__, str(e)[:120])
+    tx2 = ref.modulate(twin.copy())
+    if tx.dtype.kind != 'c':
+        return label + ':modulate-dtype', 'result dtype %s' % tx.dtype
+    if tx.shape != tx2.shape or float(np.max(np.abs(tx - tx2), initial=0.0)) > 1e-12 * sig_scale(tx2):
+        return label + ':modulate', 'differs from the complex128 twin'
+    # the received / demodulated signal in a narrower type: equal up to the precision of that type
+    ch = make_static_channel(*profile)
+    rx = ch.corrupt_data(np.array(tx2, copy=True))[:tx2.size]
+    ir = ch.get_last_impulse_response()
+    if dt.kind in 'fc':
+        cdt = np.complex64 if dt.itemsize <= 8 and dt != np.dtype('float64') else np.complex128
+        rx_t = rx.astype(cdt)
+        tol = 50 * float(np.finfo(cdt).eps) * fft
+    else:
+        rx_t = np.round(rx.real * 16).astype(np.int64 if dt.itemsize > 2 else np.int32)
+        rx_t = rx_t if dt.kind != 'u' else np.abs(rx_t).astype(np.uint32)
+        tol = 1e-12 * fft
+    twin_rx = rx_t.astype(complex)
+    try:
+        dem = ref.demodulate(np.array(rx_t, copy=True))
+        dem2 = ref.demodulate(np.array(twin_rx, copy=True))
+        out = ref_eq.equalize_data(np.array(dem2, copy=True).astype(dem.dtype), ir)
+        out2 = ref_eq.equalize_data(np.array(dem2, copy=True), ir)
+    except Exception as e:
+        return label + ':receive-raises', '%s: %s' % (type(e).__name__, str(e)[:120])
+    if dem.dtype.kind != 'c' or out.dtype.kind != 'c':
+        return label + ':receive-dtype', 'result dtypes %s %s' % (dem.dtype, out.dtype)
+    if dem.shape != dem2.shape or float(np.max(np.abs(dem - dem2), initial=0.0)) > tol * sig_scale(dem2):
+        return label + ':demodulate', 'differs from the complex128 twin beyond the precision of %s' % rx_t.dtype
+    fin = np.isfinite(out2)
+    if out.shape != out2.shape or float(np.max(np.abs(out[fin] - out2[fin]), initial=0.0)) > max(tol, 1e-12) * sig_scale(out2[fin]):
+        return label + ':equalize_data', 'differs from the complex128 twin'
+    return None
+
+
+def _views(a, kind):
+    """the same logical 1-D array in another memory layout"""
+    a = np.asarray(a)
+    if kind == 'strided':
+        big = np.zeros(2 * a.size, dtype=a.dtype)
+        big[::2] = a
+        return big[::2]
+    if kind == 'reversed':
+        return a[::-1].copy()[::-1]
+    if kind == 'offset':
+        big = np.concatenate([np.full(3, 7, dtype=a.dtype), a, np.full(2, 9, dtype=a.dtype)])
+        return big[3:3 + a.size]
+    if kind == 'fortran-column':
+        m = np.asfortranarray(np.stack([a, a + 1], axis=0))        # shape (2, n) in Fortran order: row 0 is strided
+        return m[0]
+    if kind == 'broadcast':
+        return np.broadcast_to(a[:1], (a.size,)) if a.size else a
+    if kind == 'readonly':
+        b = a.copy()
+        b.setflags(write=False)
+        return b
+    raise ValueError(kind)
+
+
+LAYOUTS = ['strided', 'reversed', 'offset', 'fortran-column', 'broadcast', 'readonly']
+
+
+def o_layout(case):
+    """R2: non-contiguous / offset / read-only / broadcast views, 0-d and size-0 arrays give positionally the result
+    of the C-contiguous copy; 2-D inputs of modulate are either rejected or treated as their flattening"""
+    o = _ofdm()
+    fft, cp, used = case['fft'], case['cp'], case['used']
+    obj = o.OFDM(fft, cp, used)
+    eqz = o.OfdmOneTapEqualizer(obj)
+    x = cx(case['x'])
+    kind = case['layout']
+    label = 'R2:' + kind
+    profile = (case['delays'], case['powers_dB'], cx(case['draw']))
+    if kind == 'broadcast':
+        x = np.full(x.size, x[0] if x.size else 0)
+    ch = make_static_channel(*profile)
+    tx_ref = obj.modulate(x.copy())
+    rx = ch.corrupt_data(np.array(tx_ref, copy=True))[:tx_ref.size]
+    ir = ch.get_last_impulse_response()
+    dem_ref = obj.demodulate(np.array(rx, copy=True))
+    out_ref = eqz.equalize_data(np.array(dem_ref, copy=True), ir)
+    if kind in ('0-d', '2-d-row', '2-d-column', '3-d'):
+        if kind == '0-d':
+            v = np.array(x[0] if x.size else 1.0)
+            twin = np.array([v.item()])
+        else:
+            shape = {'2-d-row': (1, x.size), '2-d-column': (x.size, 1), '3-d': (1, x.size, 1)}[kind]
+            v, twin = x.reshape(shape), x
+        try:
+            r = obj.modulate(v)
+        except (ValueError, TypeError):
+            return None                              # cleanly rejected
+        except Exception as e:
+            return label + ':modulate-raises', type(e).__name__
+        if r.shape != obj.modulate(twin.copy()).shape or not np.array_equal(r, obj.modulate(twin.copy())):
+            return label + ':modulate', 'accepted but differs from the flattened input'
+        return None
+    for name, fn, arr, want in (('modulate', obj.modulate, x, tx_ref), ('demodulate', obj.demodulate, rx, dem_ref),
+                                ('equalize_data', lambda d: eqz.equalize_data(d, ir), dem_ref, out_ref)):
+        if kind == 'broadcast' and name != 'modulate':
+            continue
+        v = _views(arr, kind)
+        if not np.array_equal(np.asarray(v), arr):
+            return 'harness:view', kind
+        try:
+            r = fn(v)
+        except Exception as e:
+            return label + ':' + name + '-raises', '%s: %s' % (type(e).__name__, str(e)[:120])
+        same = r.shape == want.shape and np.array_equal(r, want, equal_nan=True)
+        if not same:
+            return label + ':' + name, 'differs from the result for the contiguous copy'
+    return None
+
+
+def _snap(a):
+    a = np.asarray(a)
+    return (a.shape, a.dtype.str, a.copy())
+
+
+def _same(a, snap):
+    a = np.asarray(a)
+    return a.shape == snap[0] and a.dtype.str == snap[1] and np.array_equal(a, snap[2], equal_nan=True)
+
+
+def o_immut(case):
+    """R3: no call modifies the arrays it is given (values, shape, dtype) - not at the call and not at later calls;
+    returned arrays never alias the caller's arrays nor each other / internal buffers"""
+    o = _ofdm()
+    fft, cp, used = case['fft'], case['cp'], case['used']
+    obj = o.OFDM(fft, cp, used)
+    eqz = o.OfdmOneTapEqualizer(obj)
+    profile = (case['delays'], case['powers_dB'], cx(case['draw']))
+    kept_in, kept_out = [], []
+    for rnd, xs in enumerate(case['rounds']):
+        x = cx(xs)
+        ch = make_static_channel(*profile)
+        sx = _snap(x)
+        tx = obj.modulate(x)
+        kept_in.append(('modulate', x, sx))
+        if np.shares_memory(tx, x):
+            return 'R3:output-aliases-input:modulate', 'round %d' % rnd
+        rx = ch.corrupt_data(np.array(tx, copy=True))
+        ir = ch.get_last_impulse_response()
+        rxa = np.array(rx[:tx.size], copy=True)
+        srx = _snap(rxa)
+        taps = np.asarray(ir.tap_values_sparse)
+        staps = _snap(taps)
+        dem = obj.demodulate(rxa)
+        kept_in.append(('demodulate', rxa, srx))
+        if np.shares_memory(dem, rxa):
+            return 'R3:output-aliases-input:demodulate', 'round %d' % rnd
+        sdem = _snap(dem)
+        out = eqz.equalize_data(dem, ir)
+        kept_in.append(('equalize_data', dem, sdem))
+        kept_in.append(('equalize_data.impulse_response', taps, staps))
+        if out.size and np.shares_memory(out, dem):
+            return 'R3:output-aliases-input:equalize_data', 'round %d' % rnd
+        idx = obj.get_used_subcarrier_indexes()
+        sidx = idx.copy()
+        idx[...] = 0                                  # the caller scribbles over a returned array
+        if not np.array_equal(obj.get_used_subcarrier_indexes(), sidx):
+            return 'R3:internal-buffer-exposed:get_used_subcarrier_indexes', 'round %d' % rnd
+        for name, arr in (('modulate', tx), ('demodulate', dem), ('equalize_data', out)):
+            kept_out.append((name, arr, _snap(arr)))
+        for name, arr, sn in kept_in:
+            if not _same(arr, sn):
+                what = 'shape' if np.asarray(arr).shape != sn[0] else 'dtype' if np.asarray(arr).dtype.str != sn[1] else 'values'
+                return 'R3:input-mutated:%s:%s' % (name, what), 'after round %d: %s %s -> %s' % (
+                    rnd, what, sn[0], np.asarray(arr).shape)
+        for name, arr, sn in kept_out:
+            if not _same(arr, sn):
+                return 'R3:earlier-output-changed:' + name, 'after round %d' % rnd
+        for i in range(len(kept_out)):
+            for j in range(i + 1, len(kept_out)):
+                if kept_out[i][1].size and kept_out[j][1].size and np.shares_memory(kept_out[i][1], kept_out[j][1]):
+                    return 'R3:outputs-alias-each-other', '%s / %s' % (kept_out[i][0], kept_out[j][0])
+    return None
+
+
+def o_rejected(case):
+    """R4: a call that raises leaves the OFDM object, the equaliser and the caller's arrays exactly as they were;
+    afterwards the pair behaves like a fresh pair that never saw the rejected calls"""
+    o = _ofdm()
+    fft, cp, used = case['fft'], case['cp'], case['used']
+    obj = o.OFDM(fft, cp, used)
+    eqz = o.OfdmOneTapEqualizer(obj)
+    profile = (case['delays'], case['powers_dB'], cx(case['draw']))
+    x = cx(case['x'])
+    tx, rx, ir, dem, out = _pipeline(obj, eqz, x.copy(), profile)
+
+    def observe():
+        return (obj.fft_size, obj.cp_size, obj.num_used_subcarriers, obj.get_used_subcarrier_indexes().tolist(),
+                eqz._ofdm_obj is obj)
+    for bad in case['bad']:
+        before = observe()
+        arrs = []
+        try:
+            if bad[0] == 'set':
+                obj.set_parameters(*bad[1])
+            elif bad[0] == 'demodulate-length':
+                a = np.array(rx[:max(1, tx.size - 1)], copy=True)
+                arrs.append((a, _snap(a)))
+                obj.demodulate(a)
+            elif bad[0] == 'modulate-2d':
+                a = np.ones((2, used), dtype=complex)
+                arrs.append((a, _snap(a)))
+                obj.modulate(a)
+            elif bad[0] == 'equalize-length':
+                a = np.array(dem[:-1], copy=True)
+                arrs.append((a, _snap(a)))
+                eqz.equalize_data(a, ir)
+            elif bad[0] == 'set-float':
+                obj.set_parameters(fft + 0.5, cp, used)
+            elif bad[0] == 'set-none-fft':
+                obj.set_parameters(None, cp, used)
+            raised = False
+        except Exception:
+            raised = True
+        if not raised:
+            if bad[0] == 'set' or bad[0] in ('set-float', 'set-none-fft'):
+                if observe() != before:
+                    return 'R4:accepted-invalid:' + bad[0], repr(bad)
+            continue                                  # the call was legal after all (e.g. a 1-symbol stream minus one)
+        if observe() != before:
+            return 'R4:state-changed-by-rejected:' + bad[0], '%r -> %r' % (before[:3], observe()[:3])
+        for a, sn in arrs:
+            if not _same(a, sn):
+                return 'R4:argument-changed-by-rejected:' + bad[0], 'shape %s -> %s' % (sn[0], a.shape)
+    fresh = o.OFDM(fft, cp, used)
+    got = _pipeline(obj, eqz, x.copy(), profile)
+    want = _pipeline(fresh, o.OfdmOneTapEqualizer(fresh), x.copy(), profile)
+    for name, k in (('modulate', 0), ('demodulate', 3), ('equalize_data', 4)):
+        if got[k].shape != want[k].shape or not np.array_equal(got[k], want[k], equal_nan=True):
+            return 'R4:differs-from-fresh-after-rejected:' + name, 'after %r' % [b[0] for b in case['bad']]
+    return None
+
+
+ORACLES = {'types': o_types, 'layout': o_layout, 'immut': o_immut, 'rejected': o_rejected,
+           'onetap_history': o_onetap_history, 'history': o_history, 'constructor': o_constructor, 'roundtrip': o_roundtrip, 'structure': o_structure,
            'guards': o_guards, 'onetap': o_onetap}
 
 
@@ -489,6 +861,39 @@ def gen_profile(rng, max_memory, ntaps_max=6, force=False):
     return delays, powers, draw
 
 
+BOUNDARY_SIZES = [2, 3, 4, 5, 7, 8, 9, 15, 16, 17, 25, 31, 32, 33, 49, 63, 64, 65]      # 2^k, 2^k +- 1, p^2, odd / even
+BOUNDARY_SIZES_THOROUGH = BOUNDARY_SIZES + [121, 127, 128, 129, 169, 255, 256, 257]
+NOTCH_DEPTHS = [1e-3, 1e-5, 1e-7, 1e-9]
+SCALES = [1e-12, 1e-6, 1e6, 1e12]
+
+
+def notch_profile(rng, fft, cp, used, depth, on_used=True):
+    """two equal-power paths at delays [0, d] whose responses cancel down to `depth` on one carrier k0:
+    h = [1, -(1 - depth) e^{2 pi i k0 d / fft}]  =>  |H[k0]| = depth * |gain|, |H| ~ 1 elsewhere.
+    `on_used=False`: an EXACT null on DC (an unused carrier when used < fft): draw [1, -1], d = 1."""
+    if cp < 1 or fft < 2:
+        return None
+    if not on_used:
+        if used >= fft:
+            return None
+        return [0, 1], [0.0, 0.0], [[1.0, 0.0], [-1.0, 0.0]]
+    d = rng.randint(1, min(cp, fft - 1))
+    k0 = rng.choice(used_bins(fft, used))
+    w = -(1.0 - depth) * np.exp(2j * np.pi * ((k0 * d) % fft) / fft)
+    return [0, d], [0.0, 0.0], [[1.0, 0.0], [float(w.real), float(w.imag)]]
+
+
+def boundary_configs(sizes):
+    out = []
+    for fft in sizes:
+        top = fft - fft % 2
+        for used in sorted({2, top, max(2, top - 2)}):
+            for cp in sorted({0, 1, fft - 1, fft}):
+                if valid(fft, cp, used):
+                    out.append((fft, cp, used))
+    return out
+
+
 STRUCTURED_HISTORIES = [
     # (initial configuration, set_parameters calls)
     ([64, 16, 52], [[128, 16, 52]]),                                   # fft grows, used count kept
@@ -532,8 +937,8 @@ def history_case(rng, init, sets):
         delays, powers, draw = gen_profile(rng, min(cur[1], cur[0] - 1), force=rng.chance(0.3))
         n = gen_length(rng, cur[2])
         steps.append({'set': [f, c, u], 'x': gen_symbols(rng, n, integer=False),
-                      'delays': delays, 'powers_dB': powers, 'draw': draw})
-    return {'init': list(init), 'steps': steps}
+                      'delays': delays, 'powers_dB': powers, 'draw': draw, 'direct': rng.chance(0.2)})
+    return {'init': list(init), 'steps': steps, 'second_eq_at': rng.randint(0, len(steps))}
 
 
 # ------------------------------------------------------------------ correspondence
@@ -566,7 +971,7 @@ def near(a, b, tol=TOL):
         return None
     if not (np.all(np.isfinite(a)) and np.all(np.isfinite(b))):
         return 'non-finite'
-    ref = max(1.0, float(np.max(np.abs(a))), float(np.max(np.abs(b))))
+    ref = max(float(np.max(np.abs(a))), float(np.max(np.abs(b))))      # RELATIVE to the data (R6), no floor at 1
     err = float(np.max(np.abs(a - b)))
     return None if err <= tol * ref else 'max diff %.3g (ref %.3g)' % (err, ref)
 
@@ -836,6 +1241,108 @@ def corr_channel(ctx, b, i, fmax):
             ctx.branch('freq:cropped')
 
 
+def corr_robust(ctx, b, i):
+    """R1, R2, R3, R5, R6 in the correspondence: the implementation is driven with typed / non-contiguous / scaled /
+    deep-notch inputs, the model with the LOGICAL values (it is a function of the values only); the implementation's
+    arguments are snapshotted and must be unchanged afterwards (the model is pure)"""
+    rng = ctx.rng
+    o = _ofdm()
+    mode = i % 6
+    while True:
+        fft, cp, used = gen_config(rng, 32)
+        if cp >= 1 or mode not in (3,):
+            break
+    n = max(1, gen_length(rng, used))
+    x = cx(gen_symbols(rng, n, integer=True))
+    delays, powers, draw = gen_profile(rng, min(cp, fft - 1), force=rng.chance(0.5))
+    ptype, tol_rx, tag = int, TOL, 'plain'
+    if mode == 0:                                   # R1 narrow integer parameters + typed symbol arrays
+        ptype = getattr(np, rng.choice(['int16', 'uint16', 'int32', 'int64'] + (['uint8', 'int8'] if fft + cp < 120 else [])))
+        dt = np.dtype(rng.choice(ARRAY_TYPES))
+        xin = x.real.astype(dt) if dt.kind != 'c' else x.astype(dt)
+        x = xin.astype(complex)
+        tag = 'R1'
+    elif mode == 1:                                 # R2 layout
+        xin = _views(x, rng.choice(['strided', 'reversed', 'offset', 'fortran-column', 'readonly']))
+        tag = 'R2'
+    elif mode == 2:                                 # R6 scale
+        f1, f2 = rng.choice(SCALES), rng.choice([1.0] + SCALES)
+        x = x * f1
+        xin = x.copy()
+        draw = scaled(draw, f2)
+        tag = 'R6'
+    elif mode == 3:                                 # R5 deep notch on a used carrier
+        depth = rng.choice([1e-3, 1e-5])
+        delays, powers, draw = notch_profile(rng, fft, cp, used, depth)
+        x = cx(gen_symbols(rng, n, integer=False))
+        xin = x.copy()
+        tag = 'R5'
+    elif mode == 4:                                 # R5 boundary sizes, all-zero / single symbol
+        fft, cp, used = rng.choice(boundary_configs(BOUNDARY_SIZES[:12]))
+        delays, powers, draw = gen_profile(rng, min(cp, fft - 1), force=True)
+        x = rng.choice([np.zeros(used + 1, dtype=complex), cx(gen_symbols(rng, 1, integer=False))])
+        xin = x.copy()
+        tag = 'R5'
+    else:                                           # R1 single precision received signal
+        xin = x.copy()
+        tag = 'R1'
+    obj = o.OFDM(ptype(fft), ptype(cp), ptype(used))
+    eqz = o.OfdmOneTapEqualizer(obj)
+    case = {'fft': fft, 'cp': cp, 'used': used, 'n': int(x.size), 'class': tag, 'mode': mode}
+    ps = float(obj._calculate_power_scale())
+    sf = core.f2s(math.sqrt(ps))
+    snaps = []
+    sx = _snap(xin)
+    tx = obj.modulate(xin)
+    snaps.append(('modulate', xin, sx))
+    b.add('mod %d %d %d %s %s' % (fft, cp, used, sf, fl(x)),
+          lambda r, tx=tx: ctx.corr('robust.modulate', case, 'match', near(tx, parse_cx(r)) or 'match', key=('rb-mod', i)))
+    ch = make_static_channel(delays, powers, cx(draw))
+    rx = ch.corrupt_data(np.array(tx, copy=True))[:tx.size]
+    ir = ch.get_last_impulse_response()
+    if mode == 5:
+        rx_in = rx.astype(np.complex64)
+        rx = rx_in.astype(complex)
+        tol_rx = 1e-5
+    elif mode == 1:
+        rx_in = _views(rx, rng.choice(['strided', 'reversed', 'offset', 'readonly']))
+    else:
+        rx_in = np.array(rx, copy=True)
+    srx = _snap(rx_in)
+    dem = obj.demodulate(rx_in)
+    snaps.append(('demodulate', rx_in, srx))
+    b.add('demod %d %d %d %s %s' % (fft, cp, used, sf, fl(rx)),
+          lambda r, dem=dem, tol_rx=tol_rx: ctx.corr('robust.demodulate', case, 'match', near(dem, parse_cx(r), tol_rx) or 'match',
+                                                     key=('rb-dem', i)))
+    dem_l = np.asarray(dem).astype(complex)
+    dem_in = _views(dem_l, 'strided') if mode == 1 else np.array(dem_l, copy=True)
+    sdem = _snap(dem_in)
+    taps = np.asarray(ir.tap_values_sparse)
+    staps = _snap(taps)
+    out = eqz.equalize_data(dem_in, ir)
+    snaps.append(('equalize_data', dem_in, sdem))
+    snaps.append(('equalize_data.impulse_response', taps, staps))
+    d = ','.join(str(int(v)) for v in np.asarray(ir.tap_indexes_sparse))
+    vals = np.asarray(ir.tap_values_sparse, dtype=complex)
+
+    def cmp_out(r, out=out):
+        m = parse_cx(r) if not r.startswith('error') else None
+        if m is None or m.shape != np.asarray(out).ravel().shape:
+            ctx.corr('robust.equalize_data', case, 'ok', r[:60], key=('rb-eq', i))
+            return
+        good = np.isfinite(m) & np.isfinite(out)
+        ctx.corr('robust.equalize_data', case, 'match', near(out[good], m[good], 1e-7) or 'match', key=('rb-eq', i))
+    b.add('eq %d %d %d %s %d %s %s' % (fft, cp, used, d, vals.shape[1], fl(vals), fl(dem_l)), cmp_out)
+    # R3: the model is a pure function of its arguments; the implementation must leave them alone too
+    bad = [name for name, arr, sn in snaps if not _same(arr, sn)]
+    ctx.corr('robust.arguments-unchanged', case, 'unchanged' if not bad else 'mutated: ' + ','.join(bad), 'unchanged',
+             key=('rb-r3', i))
+    ctx.branch('R3:corr')
+    ctx.branch(tag + ':corr')
+    if mode == 3:
+        ctx.branch('R5:corr:deep-notch')
+
+
 def corr_pair_history(ctx, b, case, tag):
     """the same history on ONE real OFDM object + ONE long-lived equaliser and on the model's pair state
     machine (`pair` command): every output and the final attributes are compared"""
@@ -843,6 +1350,7 @@ def corr_pair_history(ctx, b, case, tag):
     f, c, u = case['init']
     obj = o.OFDM(f, c, u)
     eqz = o.OfdmOneTapEqualizer(obj)
+    eq2 = None
     ops, checks = [], []
 
     def num(name, arr, tol):
@@ -891,6 +1399,24 @@ def corr_pair_history(ctx, b, case, tag):
             checks.append(lambda r, e=e: ctx.corr('pair.equalize_data', tag, 'raised ' + type(e).__name__,
                                                   r if r.startswith('error') else 'ok'))
         ctx.branch('pair:roundtrip')
+        # R4: rejected calls in the middle of the history (wrong stream length) change nothing on either side
+        badrx = np.array(rx[:max(1, tx.size - 1)], copy=True)
+        try:
+            obj.demodulate(badrx)
+            flag = 'ok'
+        except Exception as e:
+            flag = 'error:' + type(e).__name__
+        ops.append('demod:%s:%s' % (sf, fl(badrx)))
+        checks.append(lambda r, flag=flag: ctx.corr('pair.demodulate.rejected', tag, flag, r if r.startswith('error') else 'ok'))
+        ctx.branch('R4:corr')
+        # R7: a second equaliser built later on the SAME object answers like the model's (stateless) equaliser
+        if eq2 is None and len(ops) > 6:
+            eq2 = o.OfdmOneTapEqualizer(obj)
+        if eq2 is not None and dem.size:
+            out_b = eq2.equalize_data(np.array(dem, copy=True), ir)
+            ops.append('eq:%s:%d:%s:%s' % (d, vals.shape[1], fl(vals), fl(dem)))
+            checks.append(num('pair.equalize_data.second-equaliser', out_b, 1e-7))
+            ctx.branch('R7:corr')
     final = '%d %d %d' % (obj.fft_size, obj.cp_size, obj.num_used_subcarriers)
 
     def on_reply(r):
@@ -933,6 +1459,8 @@ def correspondence(ctx, small, nparams, nrand, fmax, nnum, nchan):
         guarded(ctx, 'numeric-layer', i, corr_numeric, ctx, b, i, 64)
     for i in range(nchan):
         guarded(ctx, 'channel-layer', i, corr_channel, ctx, b, i, 32)
+    for i in range(max(36, nchan)):
+        guarded(ctx, 'robustness', i, corr_robust, ctx, b, i)
     # histories on one OFDM object with one long-lived equaliser
     for i, (init, sets) in enumerate(STRUCTURED_HISTORIES):
         guarded(ctx, 'pair-history', 's%d' % i, corr_pair_history, ctx, b, history_case(ctx.rng, init, sets), 's%d' % i)
@@ -955,9 +1483,115 @@ def run_corpus(ctx):
         ctx.branch('corpus')
 
 
+def scaled(v, f):
+    return [[a * f, b * f] for a, b in v]
+
+
+def robust_oracles(ctx, quick):
+    """R1-R7 on the real code, each class with its own branch"""
+    rng = ctx.rng
+
+    def base(fmax=40, need_cp=False):
+        while True:
+            fft, cp, used = gen_config(rng, fmax)
+            if not need_cp or cp >= 1:
+                break
+        delays, powers, draw = gen_profile(rng, min(cp, fft - 1), force=rng.chance(0.5))
+        n = max(1, gen_length(rng, used))
+        return {'fft': fft, 'cp': cp, 'used': used, 'x': gen_symbols(rng, n, integer=True),
+                'delays': delays, 'powers_dB': powers, 'draw': draw}
+    # R1 element types
+    for ty in INT_TYPES:
+        for cfg in ([(64, 16, 52), (12, 3, 8)] + ([(200, 50, 180)] if ty != 'int8' else [])):
+            c = base()
+            c.update(fft=cfg[0], cp=cfg[1], used=cfg[2], kind='param', type=ty)
+            c['delays'], c['powers_dB'], c['draw'] = gen_profile(rng, min(cfg[1], cfg[0] - 1), force=True)
+            run_oracle(ctx, 'types', c, key=('R1p', ty, cfg))
+            ctx.branch('R1:oracle:param')
+    c = base(); c.update(kind='param-float', type='float')
+    run_oracle(ctx, 'types', c, key=('R1pf',))
+    for ty in ARRAY_TYPES:
+        for _ in range(2 if quick else 8):
+            c = base(); c.update(kind='array', type=ty)
+            run_oracle(ctx, 'types', c, key=('R1a', ty, c['fft'], c['cp'], c['used']))
+            ctx.branch('R1:oracle:array')
+    # R2 layouts and shapes
+    for lay in LAYOUTS + ['0-d', '2-d-row', '2-d-column', '3-d']:
+        for _ in range(2 if quick else 8):
+            c = base(); c['layout'] = lay
+            run_oracle(ctx, 'layout', c, key=('R2', lay, c['fft'], c['cp'], c['used']))
+            ctx.branch('R2:oracle')
+    # R3 immutability / independence
+    for _ in range(6 if quick else 40):
+        c = base()
+        c['rounds'] = [gen_symbols(rng, max(1, gen_length(rng, c['used'])), integer=False) for _ in range(rng.randint(2, 3))]
+        del c['x']
+        run_oracle(ctx, 'immut', c, key=('R3', c['fft'], c['cp'], c['used']))
+        ctx.branch('R3:oracle')
+    # R4 rejected calls
+    for _ in range(6 if quick else 40):
+        c = base()
+        bad = [['set', [rng.randint(0, 9), rng.randint(10, 14), 4]], ['demodulate-length'], ['modulate-2d'],
+               ['equalize-length'], ['set-float'], ['set-none-fft'], ['set', [c['fft'], c['cp'], c['used'] + 1]]]
+        rng.shuffle(bad)
+        c['bad'] = bad[:rng.randint(2, len(bad))]
+        run_oracle(ctx, 'rejected', c, key=('R4', c['fft'], c['cp'], c['used']))
+        ctx.branch('R4:oracle')
+    # R5 boundary and degenerate values
+    for fft, cp, used in boundary_configs(BOUNDARY_SIZES if quick else BOUNDARY_SIZES_THOROUGH):
+        n = rng.choice([0, 1, used - 1, used, used + 1])
+        case = {'fft': fft, 'cp': cp, 'used': used, 'x': gen_symbols(rng, n, integer=rng.chance(0.5))}
+        for call in ('roundtrip', 'structure') + (('guards',) if used < fft else ()):
+            run_oracle(ctx, call, case, key=('R5', call, fft, cp, used, n))
+        ctx.branch('R5:oracle:sizes')
+        if fft in (2, 3, 9, 16, 33, 64) or not quick:
+            # the whole prefix is channel memory: a single path at delay cp (< fft)
+            m = min(cp, fft - 1)
+            c = dict(case, x=gen_symbols(rng, max(1, n), integer=False), delays=[m], powers_dB=[0.0], draw=[[0.6, -0.8]])
+            run_oracle(ctx, 'onetap', c, key=('R5-single', fft, cp, used))
+            ctx.branch('R5:oracle:single-path')
+    for _ in range(3):
+        c = base(); c['x'] = [[0.0, 0.0]] * max(1, len(c['x']))
+        for call in ('roundtrip', 'guards', 'onetap'):
+            run_oracle(ctx, call, c, key=('R5-zero', call, c['fft'], c['cp'], c['used']))
+        ctx.branch('R5:oracle:zero-input')
+    for depth in NOTCH_DEPTHS:
+        for _ in range(4 if quick else 25):
+            c = base(need_cp=True)
+            c['delays'], c['powers_dB'], c['draw'] = notch_profile(rng, c['fft'], c['cp'], c['used'], depth)
+            c['x'] = gen_symbols(rng, max(1, gen_length(rng, c['used'])), integer=False)
+            run_oracle(ctx, 'onetap', c, key=('R5-notch', depth, c['fft'], c['cp'], c['used']))
+            ctx.branch('R5:oracle:deep-notch')
+    for _ in range(4 if quick else 20):
+        c = base(need_cp=True)
+        while c['used'] >= c['fft']:
+            c = base(need_cp=True)
+        pr = notch_profile(rng, c['fft'], c['cp'], c['used'], 0.0, on_used=False)
+        if pr is not None:
+            c['delays'], c['powers_dB'], c['draw'] = pr
+            run_oracle(ctx, 'onetap', c, key=('R5-null-dc', c['fft'], c['cp'], c['used']))
+            ctx.branch('R5:oracle:null-on-unused-carrier')
+    # R6 scale: symbols and channel gains multiplied by 1e-12 ... 1e12
+    for sx in SCALES:
+        for sh in [1.0] + SCALES:
+            c = base()
+            c['x'] = scaled(gen_symbols(rng, max(1, gen_length(rng, c['used'])), integer=False), sx)
+            c['draw'] = scaled(c['draw'], sh)
+            for call in ('roundtrip', 'onetap') + (('guards',) if c['used'] < c['fft'] else ()):
+                run_oracle(ctx, call, c, key=('R6', call, sx, sh))
+            ctx.branch('R6:oracle')
+    c = base(need_cp=True)                      # a deep notch in a strongly attenuated channel
+    c['delays'], c['powers_dB'], c['draw'] = notch_profile(rng, c['fft'], c['cp'], c['used'], 1e-5)
+    c['draw'] = scaled(c['draw'], 1e-6)
+    run_oracle(ctx, 'onetap', c, key=('R6-notch',))
+    # R7 long-lived objects, shared OFDM object, direct attribute assignment: in `onetap_history` (below)
+    ctx.branch('R7:oracle')
+
+
 def oracles(ctx, small, nrand, fmax, nchan):
     rng = ctx.rng
     run_corpus(ctx)
+    robust_oracles(ctx, ctx.tier == 'quick')
     # constructor table
     for fft in range(0, min(small, 10) + 1):
         for cp in range(-1, fft + 2):
@@ -1019,7 +1653,11 @@ def check(ctx):
                              'rmcp:error', 'rmcp:ok', 'params:ok', 'params:error:ValueError', 'history',
                              'channel:static', 'channel:time-varying', 'channel:memory<=cp', 'channel:memory>cp',
                              'freq:cropped', 'demod:error:ValueError', 'eq:empty:ok', 'eq:baddata:error',
-                             'pair:history', 'pair:roundtrip', 'pair:set:ok', 'pair:set:error']
+                             'pair:history', 'pair:roundtrip', 'pair:set:ok', 'pair:set:error',
+                             'R1:corr', 'R2:corr', 'R3:corr', 'R4:corr', 'R5:corr', 'R5:corr:deep-notch', 'R6:corr', 'R7:corr',
+                             'R1:oracle:param', 'R1:oracle:array', 'R2:oracle', 'R3:oracle', 'R4:oracle', 'R5:oracle:sizes',
+                             'R5:oracle:single-path', 'R5:oracle:zero-input', 'R5:oracle:deep-notch',
+                             'R5:oracle:null-on-unused-carrier', 'R6:oracle', 'R7:oracle']
     try:
         correspondence(ctx, small, 300 if quick else 3000, 150 if quick else 1500, 128 if quick else 512,
                        60 if quick else 600, 40 if quick else 500)
